@@ -91,11 +91,19 @@ def chain_kerning_font(rng, writer="kern1"):
     return {"ufo": ufo, "q": 1, "groupsAbs": groups, "writer": writer}
 
 
-def kerning_font(rng, writer="kern1"):
-    """abstract ufo + kerning description; values at scale 4 (quarter units)"""
-    if rng.random() < 0.2:
+def kerning_font(rng, writer="kern1", lang_first=False):
+    """abstract ufo + kerning description; values at scale 4 (quarter units).
+    lang_first: Latin + marks, a non-default language of 'latn' declared before (or without) its default language system,
+    attaching anchors so that the mark writer creates every declared language system."""
+    if not lang_first and rng.random() < 0.2:
         return chain_kerning_font(rng, writer)
-    gl = repertoire(rng)
+    neutral_alt = not lang_first and rng.random() < 0.25
+    gl = repertoire(rng, force=["latin", "arab"] if neutral_alt else (["latin", "marks"] if lang_first else None))
+    if neutral_alt:
+        # both directions in one font and an unencoded alternate that is reachable only from a NEUTRAL glyph
+        for item in (("period", 0x2E), ("period.alt", None)):
+            if item not in gl:
+                gl.append(item)
     names = [n for n, _ in gl]
     glyphs = {}
     for n, cp in gl:
@@ -119,11 +127,13 @@ def kerning_font(rng, writer="kern1"):
                 if len(mine) > 1 and rng.random() < 0.4:
                     mine = mine[1:] + ([mine[0]] if rng.random() < 0.6 else [])
                 langs += mine
+    if lang_first:
+        langs = [("DFLT", "dflt"), ("latn", "TRK ")] + ([("latn", "dflt")] if rng.random() < 0.6 else [])
     fea += [f"languagesystem {t} {l};" for t, l in langs]
     # GSUB alternates
     subs = []
     for alt, base in (("a.alt", "a"), ("period.alt", "period"), ("alef-ar.fina", "alef-ar")):
-        if alt in names and base in names and rng.random() < 0.8:
+        if alt in names and base in names and (rng.random() < 0.8 or (neutral_alt and alt == "period.alt")):
             subs.append(f"sub {base} by {alt};")
     if "x.alt" in names and rng.random() < 0.4:
         srcs = [n for n in ("a", "a-cy", "one") if n in names]
@@ -165,6 +175,9 @@ def kerning_font(rng, writer="kern1"):
         r_ = rng.choice(names + g2 + g2 + ["missing.glyph"]) if g2 else rng.choice(names)
         v = rng.choice(vals + tie_vals) * rng.choice([1, 1, 4, 4, 8])
         entries[(l, r_)] = v
+    if neutral_alt:
+        for other in rng.sample([n for n in names if n != "period.alt"], min(3, len(names) - 1)):
+            entries[("period.alt", other) if rng.random() < 0.5 else (other, "period.alt")] = rng.choice([48, -36, 100])
     # pairs among the neutral-bidi glyphs of right-to-left scripts (mark against mark)
     rn = [n for n in names if n in ("hiriq-hb", "dagesh-hb", "alefabove-ar", "qamats-hb")]
     for a_ in rn:
@@ -193,7 +206,7 @@ def kerning_font(rng, writer="kern1"):
     # every declared language system, whether or not kerning is registered there
     marks_ = [n for n in names if n in ("acutecomb", "gravecomb", "fatha-ar")]
     bases_ = [n for n in names if n not in marks_ and glyphs[n]["u"]]
-    if marks_ and bases_ and rng.random() < 0.35:
+    if marks_ and bases_ and (lang_first or rng.random() < 0.35):
         for m in marks_:
             glyphs[m]["anchors"].append({"n": "_top", "x": 0, "y": 500 * PS})
         for b in bases_[:3]:
